@@ -2,6 +2,7 @@ package circuitsim
 
 import (
 	"fmt"
+	"os"
 	"runtime/debug"
 	"sort"
 	"strings"
@@ -102,6 +103,23 @@ type Race struct {
 	overlaps int
 	maxOps   int
 	crashAt  int64
+
+	sharedBase [MaxCh + 1]int
+}
+
+// sharedLink (VERIF_C07_SHAREDLINK=1) is an experiment, not part of the check:
+// it lets two goroutines act as the same link, which lnd never does, to show
+// that the check-then-write window of OpenCircuits is reachable by the
+// scheduler (two OpenCircuits with the same outgoing key both succeed).
+var sharedLink = os.Getenv("VERIF_C07_SHAREDLINK") == "1"
+
+func (rc *Race) openInFlight(c int) bool {
+	for _, cl := range rc.clients {
+		if cl.op != nil && cl.op.in.Kind == OpOpen && cl.op.role == c {
+			return true
+		}
+	}
+	return false
 }
 
 // RunRace is one simulated execution of the race arm.
@@ -216,7 +234,10 @@ func (rc *Race) wait() revent {
 	case ev := <-rc.events:
 		return ev
 	case <-tm.C:
-		rc.R.Fail("stuck", "a circuit map call did not reach a database transaction or return within 60 s of real time while every other client was parked (lock held across a transaction?)")
+		// Not a property violation: the cooperative scheduler cannot run an
+		// implementation that blocks a client on a lock held across a
+		// database transaction by a parked client.
+		rc.R.Harness("a circuit map call did not reach a database transaction or return within 60 s of real time while every other client was parked (lock held across a transaction?)")
 	}
 	panic("unreachable")
 }
@@ -321,11 +342,13 @@ func (rc *Race) loop(endCrash bool) {
 						ev = append(ev, rcand{"delete", a, 2})
 					}
 				}
-				if a >= 1 && w.Env.Status[a] == ChOpen && !rc.roleBusy[a] {
+				if a >= 1 && w.Env.Status[a] == ChOpen && (!rc.roleBusy[a] || (sharedLink && rc.openInFlight(a))) {
 					if len(rc.openCands(a)) > 0 && rc.nextID[a] < MaxOut-3 {
 						ev = append(ev, rcand{"open", a, 4})
 					}
-					ev = append(ev, rcand{"flap", a, 1})
+					if !rc.roleBusy[a] {
+						ev = append(ev, rcand{"flap", a, 1})
+					}
 				}
 			}
 			ev = append(ev, rcand{"close", 0, 4}, rcand{"fail", 0, 3}, rcand{"lookup", 0, 2})
@@ -440,13 +463,23 @@ func (rc *Race) makeOp(e rcand) *rop {
 		cands := rc.openCands(c)
 		n := 1 + r.Draw(min(2, len(cands)))
 		op := &rop{role: c, nids: n, in: Input{Kind: OpOpen}}
+		base := rc.nextID[c]
+		if sharedLink && rc.openInFlight(c) {
+			// EXPERIMENT (outside lnd's threading contract): a second
+			// goroutine acts as the same link and hands out the HTLC ids
+			// the first one is still binding.
+			base = rc.sharedBase[c]
+		}
+		rc.sharedBase[c] = base
 		for i := 0; i < n; i++ {
 			j := i + r.Draw(len(cands)-i)
 			cands[i], cands[j] = cands[j], cands[i]
-			op.in.Ks = append(op.in.Ks, ksPair{In: cands[i], Out: okOf(c, rc.nextID[c]+i)})
+			op.in.Ks = append(op.in.Ks, ksPair{In: cands[i], Out: okOf(c, base+i)})
 			rc.kn[cands[i]].opening = true
 		}
-		rc.nextID[c] += n
+		if base+n > rc.nextID[c] {
+			rc.nextID[c] = base + n
+		}
 		rc.acquire(op)
 		return op
 
